@@ -101,6 +101,8 @@ func VerifC16Output() {
 		// the action's status is the library's verdict
 		verifAssert((err == nil) || c16Code(err) > 0, "C16.code.output.exitcoder")
 	}
+	// the front end itself touches the file system only through the library
+	verifAssert(len(verifFSCalls()) == 0, "C16.wire.output.nofs")
 	verifReach("C16.output.end")
 }
 
@@ -140,6 +142,8 @@ func VerifC16Mkdir() {
 		verifAssert(calls == want, "C16.wire.mkdir")
 		verifAssert((err == nil) || c16Code(err) > 0, "C16.code.mkdir.exitcoder")
 	}
+	// the front end itself touches the file system only through the library
+	verifAssert(len(verifFSCalls()) == 0, "C16.wire.mkdir.nofs")
 	verifReach("C16.mkdir.end")
 }
 
@@ -166,6 +170,8 @@ func VerifC16Verify() {
 		verifAssert(calls == want, "C16.wire.verify")
 		verifAssert((err == nil) || c16Code(err) > 0, "C16.code.verify.exitcoder")
 	}
+	// the front end itself touches the file system only through the library
+	verifAssert(len(verifFSCalls()) == 0, "C16.wire.verify.nofs")
 	verifReach("C16.verify.end")
 }
 
